@@ -163,7 +163,14 @@ func runC09(c *Ctx) {
 			}
 			for _, k := range consts {
 				nSites++
-				key := fmt.Sprintf("%s@%s", k, p.FuncKey(f))
+				role := p.FuncKey(f)
+				switch {
+				case isStopCore(f):
+					role = "stop-core"
+				case f == run:
+					role = "run-entry"
+				}
+				key := fmt.Sprintf("%s@%s", k, role)
 				if isTerminal(callee) {
 					c.Check(k == completed || k == errorSt || k == skipped, rCtx, "terminal-arg:"+key, p.InstrPos(call),
 						"terminal state constant", "the terminal function is called with the non-terminal state "+k+": the process is marked done but keeps reporting a transient status forever")
@@ -237,6 +244,24 @@ func runC09(c *Ctx) {
 	s.checkStatusStoreCallsHook(c, "status-store-calls-hook")
 	s.checkDaemonRelease(c, "daemon-released-after-configured-stop")
 	s.checkStartRefusedWhenRegistered(c, "one-supervisor-per-state-record")
+	// a stop request changes the status of running-class and Pending processes only (terminal states stay)
+	s.checkStopCoreTable(c, "stop-core-explicit-table", "explicit")
+	rRec := c.Rule("registry-record-is-live-record", "the function that moves a process to another name re-registers the state record it found (the one the instance writes to), not a copy, and stores the new name into it on every path through the move")
+	nRen := 0
+	for _, f := range p.FuncsOfPkg("app") {
+		if !s.IsRunnerMethod(f) || f.Parent() != nil {
+			continue
+		}
+		if len(DirectSites(f, MapDeleteOn("d", s.FProcesses))) == 0 || len(DirectSites(f, MapUpdateOn("w", s.FProcesses))) == 0 {
+			continue
+		}
+		nRen++
+		c.Touch(f)
+		s.checkRenameKeepsRecord(c, rRec, f)
+	}
+	if nRen == 0 {
+		c.Bad(rRec, "rename:function", "", "no rename function found")
+	}
 }
 
 // stringConstsOf resolves a string value to the constants it may hold
@@ -414,7 +439,15 @@ func (s *Sel) checkExitCodeProvenance(c *Ctx, ruleID string) {
 						}
 					}
 				}
-				c.Check(okc, rExit, "const:"+p.FuncKey(f), p.InstrPos(call), "non-zero constant for a never-run state", "a constant exit code is stored outside the Skipped/Error status-change hook: the reported exit code is not that of the process's last command (e.g. a waiting dependent overwrites the code of its dependency)")
+				role := p.FuncKey(f)
+				for _, k2 := range []latchKind{latchReady, latchLogReady} {
+					for _, w := range s.WaitPrims(k2) {
+						if w == f {
+							role = "wait-on-" + k2.String()
+						}
+					}
+				}
+				c.Check(okc, rExit, "const:"+role, p.InstrPos(call), "non-zero constant for a never-run state", "a constant exit code is stored outside the Skipped/Error status-change hook: the reported exit code is not that of the process's last command (e.g. a waiting dependent overwrites the code of its dependency)")
 				continue
 			}
 			isCmdExit := false
@@ -430,7 +463,117 @@ func (s *Sel) checkExitCodeProvenance(c *Ctx, ruleID string) {
 	if nE < 2 {
 		c.Bad(rExit, "floor:setter-sites", "", "expected at least two call sites of the exit-code setter")
 	}
+	// the implementations behind command.ExitCode(): a commander that wraps an OS command (exec.Cmd) reports the
+	// code of os.ProcessState on every path; in particular it never answers the constant 0 on its own (death by a
+	// signal has ProcessState.ExitCode() == -1 and must not read as success)
+	nImpl := 0
+	for _, f := range p.implementationsOf(s.MExitCode) {
+		if !wrapsExecCmd(f) {
+			continue
+		}
+		nImpl++
+		c.Touch(f)
+		ok, why := true, ""
+		for _, ret := range returnsOf(f) {
+			if len(ret.Results) != 1 {
+				continue
+			}
+			v := stripConv(ret.Results[0])
+			if k, isK := ConstInt(v); isK {
+				if k == 0 {
+					ok, why = false, "returns the constant 0 on a path"
+				}
+				continue
+			}
+			if !exitCodeOfOS(p, v, 0) {
+				ok, why = false, "returns a value that is not os.ProcessState.ExitCode()"
+			}
+		}
+		c.Check(ok, rExit, "impl:"+p.FuncKey(f), FirstPos(p, f), "reports the operating system's exit code on every path", "the commander's ExitCode "+why+": a command that did not exit by itself (killed by a signal, crashed) is reported with a code that is not the operating system's, so `process_completed_successfully` dependents and exit-code based decisions see success")
+	}
+	if nImpl < 1 {
+		c.Bad(rExit, "floor:commander-implementations", "", "no commander implementation wrapping exec.Cmd found")
+	}
+}
 
+// implementationsOf lists the source functions implementing an interface method.
+func (p *Prog) implementationsOf(m *types.Func) []*ssa.Function {
+	var out []*ssa.Function
+	for _, f := range p.Funcs {
+		if f.Parent() != nil || f.Signature.Recv() == nil || f.Name() != m.Name() || f.Object() == nil {
+			continue
+		}
+		iface, ok := m.Type().(*types.Signature).Recv().Type().Underlying().(*types.Interface)
+		if !ok {
+			continue
+		}
+		if types.Implements(f.Signature.Recv().Type(), iface) {
+			out = append(out, f)
+		}
+	}
+	return out
+}
+
+// wrapsExecCmd: the receiver struct holds an *exec.Cmd (directly or through an embedded struct).
+func wrapsExecCmd(f *ssa.Function) bool {
+	t := f.Signature.Recv().Type()
+	if pt, ok := t.(*types.Pointer); ok {
+		t = pt.Elem()
+	}
+	var has func(t types.Type, depth int) bool
+	has = func(t types.Type, depth int) bool {
+		st, ok := t.Underlying().(*types.Struct)
+		if !ok || depth > 3 {
+			return false
+		}
+		for i := 0; i < st.NumFields(); i++ {
+			ft := st.Field(i).Type()
+			if pt, ok := ft.(*types.Pointer); ok {
+				ft = pt.Elem()
+			}
+			if nt, ok := ft.(*types.Named); ok && nt.Obj().Pkg() != nil && nt.Obj().Pkg().Path() == "os/exec" && nt.Obj().Name() == "Cmd" {
+				return true
+			}
+			if st.Field(i).Embedded() && has(ft, depth+1) {
+				return true
+			}
+		}
+		return false
+	}
+	return has(t, 0)
+}
+
+// exitCodeOfOS: v is the result of (*os.ProcessState).ExitCode(), possibly through phis or a delegating call to
+// another ExitCode implementation.
+func exitCodeOfOS(p *Prog, v ssa.Value, depth int) bool {
+	if depth > 4 {
+		return false
+	}
+	switch x := stripConv(v).(type) {
+	case *ssa.Call:
+		if o := CalleeObj(&x.Call); o != nil && o.Name() == "ExitCode" {
+			if o.Pkg() != nil && o.Pkg().Path() == "os" {
+				return true
+			}
+			if sc := x.Call.StaticCallee(); sc != nil && len(sc.Blocks) > 0 && wrapsExecCmd(sc) {
+				return true // judged at that implementation
+			}
+		}
+	case *ssa.Phi:
+		for _, e := range x.Edges {
+			if k, isK := ConstInt(e); isK {
+				if k == 0 {
+					return false
+				}
+				continue
+			}
+			if !exitCodeOfOS(p, e, depth+1) {
+				return false
+			}
+		}
+		return true
+	}
+	return false
 }
 
 // checkDaemonRelease (C09, C12): the daemon wait is released by the configured
